@@ -100,6 +100,7 @@ impl Prop for C07 {
             buffered: false,
             gate_calls: vec![],
             trace: idx % 16 == 3,
+            via_builder: None,
             inbound,
             reads,
             writes: vec![],
@@ -210,6 +211,7 @@ impl Prop for C07 {
             buffered,
             gate_calls: vec![],
             trace: rng.chance(1, 8),
+            via_builder: None,
             inbound,
             reads,
             writes,
